@@ -1,7 +1,7 @@
 """C20 — key parity, key variants and bit helpers are exact."""
 from core import Case, enc_b
 
-OBLIGATIONS = []
+OBLIGATIONS = ["Psec.Props.C20.oddParity_spec", "Psec.Props.C20.parityBits_stable", "Psec.Props.C20.xor_spec", "Psec.Props.C20.adjustParity_spec", "Psec.Props.C20.applyVariant_spec", "Psec.Props.C20.variantMask_getElem", "Psec.Props.C20.applyVariant_involutive"]
 TRUSTED_BASE = ["Lean 4.33 kernel", "correspondence harness and compiled driver", "little-endian sys.byteorder (asserted at start-up)"]
 RULE = ("exhaustive: all 256 byte values at every position of 8/16/24-byte keys (parity); all variants -2..33 x key sizes 0..25; "
         "xor over all length pairs 0..64 (quick: 0..40); odd_parity over all 16-bit values plus sampled 32-bit values")
